@@ -30,7 +30,7 @@ def main(tier):
                 vlib.tool_error(f"program does not load: {r['sig']}: {r['load_err']}")
             values += r['values']; edges += r['edges']; pairs += r['pairs']; longp += r['long']; funcs += r['funcs']
             if r.get('panic'):
-                rep.fail(f"{r['sig']} / panic", r['atoms'] + ['panic'], dict(sig=r['sig'], panic=r['panic']))
+                rep.fail(f"{r['sig']} / panic", r['atoms'] + ['panic', 'fn:' + r['sig']], dict(sig=r['sig'], panic=r['panic']))
             if r.get('missing'):
                 rep.fail(r['sig'], r['atoms'] + (r.get('matoms') or []), dict(sig=r['sig'], missing=r['missing']))
             if len(samples) < 6 and r['pairs'] >= 3 and r['idx'] % 37 == 1:
